@@ -4,7 +4,8 @@
    channel `xchg`, card model `ftag`, `honest` = the undisturbed channel), Model/Ntag.v. *)
 From Coq Require Import ZArith List Bool.
 From NV Require Import Base.Result Base.Bytes Base.PyPrims Model.Des Model.FelicaMac Model.Ntag Model.AuthRun
-  Proofs.DesKat Proofs.AuthMac Proofs.AuthTag Proofs.AuthLiteS Proofs.AuthNtag Proofs.AuthDefects.
+  Proofs.DesKat Proofs.AuthMac Proofs.AuthTag Proofs.AuthLiteS Proofs.AuthNtag Proofs.AuthDefects
+  Base.PyAuth Gen.AuthK Bridge.Auth.
 Import ListNotations.
 Open Scope Z_scope.
 
@@ -160,6 +161,89 @@ Print Assumptions C20_protect_then_auth_ntag.
 Theorem C20_ntag_products_open : forall cfg, In cfg [16; 37; 41; 131; 227] -> nt_open (ntag_blank cfg).
 Proof. exact ntag_blank_open. Qed.
 Print Assumptions C20_ntag_products_open.
+
+(* --- tie: the byte manipulation around the crypto calls, regenerated from tt3_sony.py / tt3.py /
+       tt2_nxp.py on this run (Gen/AuthK.v, pyDes uninterpreted = Section variable des3_cbc), is what the
+       models compute, with des3_cbc := the DES model --- *)
+Theorem C20_bridge_generate_mac : forall data key iv flip,
+  generate_mac data key iv flip =
+    if gen_mac_assert data key iv then Ok (gen_generate_mac tdes_cbc_encrypt data key iv flip) else Crash AssertErr.
+Proof. exact bridge_generate_mac. Qed.
+Print Assumptions C20_bridge_generate_mac.
+Theorem C20_bridge_felica_key : forall pw,
+  felica_key pw = if gen_auth_pw_bad pw then Err ValueError else Ok (gen_auth_key pw).
+Proof. exact bridge_felica_key. Qed.
+Print Assumptions C20_bridge_felica_key.
+Theorem C20_bridge_auth_rc_block : forall rc, length rc = 16%nat ->
+  gen_auth_rc_block rc = rev_halves rc /\ gen_auth_rc_blockno = 128 /\ gen_auth_read_blocks = [130; 129].
+Proof. exact bridge_auth_rc_block. Qed.
+Print Assumptions C20_bridge_auth_rc_block.
+Theorem C20_bridge_session_key : forall key rc,
+  gen_auth_sk tdes_cbc_encrypt key rc = session_key key rc /\ gen_auth_iv rc = firstn 8 rc.
+Proof. exact bridge_session_key. Qed.
+Print Assumptions C20_bridge_session_key.
+Theorem C20_bridge_auth_mac_ok : forall data sk rc m,
+  generate_mac (pyslice data 0 (-16)) sk (firstn 8 rc) false = Ok m ->
+  gen_auth_mac_ok tdes_cbc_encrypt data sk rc = list_eqb (pyslice data (-16) (-8)) m.
+Proof. exact bridge_auth_mac_ok. Qed.
+Print Assumptions C20_bridge_auth_mac_ok.
+(* read_with_mac of the model is: split the response, compare, return - as generated from the method *)
+Theorem C20_bridge_read_with_mac : forall (T : Type) (xchg : T -> list Z -> T * xres) idm blocks (s s' : T * rstate) sk iv rsp,
+  r_sk (snd s) = Some sk -> r_iv (snd s) = Some iv ->
+  read_blocks xchg idm (blocks ++ [gen_rmac_mac_block]) s = (s', Ok rsp) ->
+  gen_mac_assert (gen_rmac_data rsp sk iv) sk iv = true ->
+  read_with_mac xchg idm blocks s =
+    (s', Ok (if gen_rmac_reject tdes_cbc_encrypt rsp sk iv then None else Some (gen_rmac_data rsp sk iv))).
+Proof. exact @bridge_read_with_mac. Qed.
+Print Assumptions C20_bridge_read_with_mac.
+Theorem C20_bridge_wmac_pieces : forall w wcnt block data sk,
+  gen_wmac_wcnt w = slice w 0 3 /\ gen_wmac_wcnt_block = 144 /\ gen_wmac_maca_block = 145 /\
+  gen_wmac_plain wcnt block data = wcnt ++ [0; block; 0; 145; 0] ++ data /\
+  (length sk = 16%nat -> gen_wmac_flip sk = skipn 8 sk ++ firstn 8 sk).
+Proof. exact bridge_wmac_pieces. Qed.
+Print Assumptions C20_bridge_wmac_pieces.
+Theorem C20_bridge_wmac_payload : forall wcnt block data sk iv m, length sk = 16%nat ->
+  let d := wcnt ++ [0; block; 0; 145; 0] ++ data in
+  generate_mac d (skipn 8 sk ++ firstn 8 sk) iv false = Ok m ->
+  gen_wmac_payload (gen_wmac_plain wcnt block data) (gen_wmac_maca tdes_cbc_encrypt (gen_wmac_plain wcnt block data) sk iv wcnt)
+  = slice d 8 24 ++ m ++ wcnt ++ zeros 5.
+Proof. exact bridge_wmac_payload. Qed.
+Print Assumptions C20_bridge_wmac_payload.
+Theorem C20_bridge_protect_key : forall pw key, length key = 16%nat ->
+  gen_protect_key pw = pw_key pw /\ gen_lites_protect_key pw = pw_key pw /\
+  gen_protect_ck_block key = rev_halves key /\ gen_lites_protect_ck_block key = rev_halves key /\
+  gen_protect_ck_blockno = 135 /\ gen_lites_protect_ck_blockno = 135.
+Proof. exact bridge_protect_key. Qed.
+Print Assumptions C20_bridge_protect_key.
+Theorem C20_bridge_block_code : forall n, 0 <= n < 65536 -> block_code n = Ok (gen_blockcode_pack n 0 0).
+Proof. exact bridge_block_code. Qed.
+Print Assumptions C20_bridge_block_code.
+Theorem C20_bridge_service_codes :
+  gen_sc_read = [11; 0] /\ gen_sc_read_mac = [11; 0] /\ gen_sc_write = [9; 0] /\ gen_sc_write_mac = [9; 0].
+Proof. exact bridge_service_codes. Qed.
+Print Assumptions C20_bridge_service_codes.
+Theorem C20_bridge_ntag_key : forall pw,
+  ntag_key pw = (if gen_ntag_pw_bad pw then Err ValueError else Ok (gen_ntag_key pw)) /\
+  gen_ntag_protect_pw_bad pw = gen_ntag_pw_bad pw /\ gen_ntag_protect_key pw = gen_ntag_key pw.
+Proof. exact bridge_ntag_key. Qed.
+Print Assumptions C20_bridge_ntag_key.
+Theorem C20_bridge_ntag_auth : forall key rsp,
+  gen_ntag_auth_cmd key = 27 :: firstn 4 key /\ gen_ntag_auth_ok rsp key = list_eqb rsp (slice key 4 6).
+Proof. exact bridge_ntag_auth. Qed.
+Print Assumptions C20_bridge_ntag_auth.
+Theorem C20_bridge_ntag_cfg_edit : forall cfg key rp pf, length cfg = 16%nat -> length key = 6%nat ->
+  gen_ntag_cfg_edit cfg key rp pf = ntag_cfg_edit cfg key rp pf.
+Proof. exact bridge_ntag_cfg_edit. Qed.
+Print Assumptions C20_bridge_ntag_cfg_edit.
+Theorem C20_bridge_ntag_cfg_writes : forall cfgpage cfg,
+  map (fun i => (gen_ntag_cfg_page cfgpage i, gen_ntag_cfg_slice cfg i)) (zrange 0 gen_ntag_cfg_count) =
+  [(cfgpage, slice cfg 0 4); (cfgpage + 1, slice cfg 4 8); (cfgpage + 2, slice cfg 8 12); (cfgpage + 3, slice cfg 12 16)].
+Proof. exact bridge_ntag_cfg_writes. Qed.
+Print Assumptions C20_bridge_ntag_cfg_writes.
+Theorem C20_bridge_ntag_cc : forall cc rp pf, length cc = 4%nat ->
+  gen_ntag_cc_cond pf = (pf <=? 3) /\ gen_ntag_cc_test cc = ntag_cc_test cc /\ gen_ntag_cc_edit cc rp = ntag_cc_edit cc rp.
+Proof. exact bridge_ntag_cc. Qed.
+Print Assumptions C20_bridge_ntag_cc.
 
 (* --- defects of the code as found (model with repaired = false), and the repaired behaviour --- *)
 Theorem C20_lites_authenticate_found_TypeError :
